@@ -60,6 +60,13 @@ def eval_case(kind, cfg, game, mode):
             w = win(model, game)
             msgs = basic(kind, cfg, game, w)
             rel = 0
+            al = lib.ratings_aliased(model, game)
+            if al is not None and not msgs:
+                w2 = model.predict_win(al)
+                rel += 1
+                msgs += [(k + "-alias", m + " [identical teams passed as one list object]") for k, m in basic(kind, cfg, game, w2)]
+                if not msgs and any(abs(a - c) > S for a, c in zip(w, w2)):
+                    msgs.append(("alias", f"{kind}.predict_win differs when identical teams are one list object in several slots: {w2} vs {w}"))
             if mode == "basic" or msgs:
                 return msgs, rel
             n = len(game)
@@ -145,3 +152,7 @@ def replay(case):
 def main(ctx, t0):
     acc = core.run_units(units(ctx), run_unit, ctx)
     return core.finish(PID, ctx, LEVEL, acc, RULE, {"exhaustive": True, "plan": [f"{a}/{b}/{c}" for a, b, c in plan(ctx)]}, ASSUMPTIONS, t0)
+
+
+def replay_unit(unit, ctx):
+    return run_unit(unit, ctx)
